@@ -324,14 +324,14 @@ Definition wake_tgt (d : drv) : drv :=
 
 Definition FUEL : nat := 400.
 
-Fixpoint settle (fuel : nat) (d : drv) : drv :=
+Fixpoint settle (tf : nat) (fuel : nat) (d : drv) : drv :=
   match fuel with
   | O => d
   | S f =>
       match d_q d with
       | [] => d
-      | TT i :: q => settle f (wake_tgt (run_timer FUEL i (mkDrv (d_s d) q (d_ls d))))
-      | TA :: q => settle f (run_tgt FUEL (mkDrv (d_s d) q (d_ls d)))
+      | TT i :: q => settle tf f (wake_tgt (run_timer tf i (mkDrv (d_s d) q (d_ls d))))
+      | TA :: q => settle tf f (run_tgt tf (mkDrv (d_s d) q (d_ls d)))
       end
   end.
 
@@ -363,7 +363,8 @@ Definition probe_of (s : state) : N * bool * list bool :=
   (now s, match g_status (tgt s) with Stopped => true | _ => false end,
    map (fun tm => finished (k_pc tm)) (timers s)).
 
-Definition exec_op (dp : drv * list (N * bool * list bool)) (o : op) : drv * list (N * bool * list bool) :=
+Definition exec_op_gen (tf f : nat) (dp : drv * list (N * bool * list bool)) (o : op)
+  : drv * list (N * bool * list bool) :=
   let (d, pr) := dp in
   match o with
   | OMk k dur =>
@@ -373,12 +374,14 @@ Definition exec_op (dp : drv * list (N * bool * list bool)) (o : op) : drv * lis
   | OStop r => (wake_tgt (dstep d (TStop r)), pr)
   | OKill => (wake_tgt (dstep d TKill), pr)
   | ODrain => (wake_tgt (dstep d TDrain), pr)
-  | OSettle => (settle FUEL d, pr)
+  | OSettle => (settle tf f d, pr)
   | OAdv dt =>
-      let d1 := dstep (settle FUEL d) (Advance dt) in
+      let d1 := dstep (settle tf f d) (Advance dt) in
       (wake_fired d1, pr)
-  | OProbe => let d1 := settle FUEL d in (d1, pr ++ [probe_of (d_s d1)])
+  | OProbe => let d1 := settle tf f d in (d1, pr ++ [probe_of (d_s d1)])
   end.
+
+Definition exec_op := exec_op_gen FUEL FUEL.
 
 Definition exec (ops : list op) : drv * list (N * bool * list bool) :=
   fold_left exec_op ops (mkDrv (init 0) [] [], []).
